@@ -35,7 +35,7 @@ def header(mode, k, needs, end):
 class C17(Base):
     ID = "C17"
     AREA = "cache"
-    LEMMA_FILES = ["FluentProofs/Cache.lean", "FluentProofs/CacheLive.lean"]
+    LEMMA_FILES = ["FluentProofs/Cache.lean", "FluentProofs/CacheLive.lean", "FluentProofs/CacheOps.lean"]
     RULE = ("async: 1-4 concurrent Bundles::format_value/format_values/format_messages futures polled by hand with "
             "logging wakers over a scripted generator stream (0-6 bundles, each needing 0-3 external events before it "
             "is ready, end of stream likewise; the stream keeps only the last waker) under random schedules of "
